@@ -2,8 +2,17 @@
 
 package simrt
 
+import "unsafe"
+
 // RaceBuild reports whether the binary was built with -race.
 const RaceBuild = false
 
 func raceDisable() {}
 func raceEnable()  {}
+
+// RaceSyncOn / RaceSyncOff are no-ops without the race detector.
+func RaceSyncOn()  {}
+func RaceSyncOff() {}
+
+func poolRelease(p unsafe.Pointer) {}
+func poolAcquire(p unsafe.Pointer) {}
